@@ -242,7 +242,7 @@ func c05Finish(c *engine.Ctx, cov map[string]interface{}) string {
 func init() {
 	register(&engine.Check{
 		ID: "C05", Level: "exploration",
-		Rule: "every valid-UTF-8 string ≤4 (5) atoms over the JS core alphabet and ≤2 (3) over the full one, every single-edit neighbour of ~150 seed programs, every (third) ordered pair of seeds joined by newline/semicolon/space, and the literal family (13 literals containing line breaks or escapes × 11 syntactic positions × 8 block wrappers × nesting depth 0..3) × 4 Options: for each input js.Parse accepts, AST.JS() must be accepted again, print identically a second time, give the same String() tree once *GroupExpr nodes are removed from both trees (reflection rewrite), and contain every string/template/regexp/numeric literal, kept comment and directive of the tree byte for byte",
+		Rule:        "every valid-UTF-8 string ≤4 (5) atoms over the JS core alphabet and ≤2 (3) over the full one, every single-edit neighbour of ~150 seed programs, every (third) ordered pair of seeds joined by newline/semicolon/space, and the literal family (13 literals containing line breaks or escapes × 11 syntactic positions × 8 block wrappers × nesting depth 0..3) × 4 Options: for each input js.Parse accepts, AST.JS() must be accepted again, print identically a second time, give the same String() tree once *GroupExpr nodes are removed from both trees (reflection rewrite), and contain every string/template/regexp/numeric literal, kept comment and directive of the tree byte for byte",
 		Assumptions: []string{"the same Options are used for the second parse", "literal bytes are taken from the first tree's nodes (they alias the source)"},
 		Setup:       c05Setup, Work: c05Work, Finish: c05Finish,
 	})
